@@ -48,6 +48,7 @@ class Ctx:
         if not hk.latch:
             return None, "main loop has no accepted path that reaches the next iteration"
         L = hk.latch[0] if len(hk.latch) == 1 else sx.join_states(hk.latch)
+        hk = _resolved(sx, hk, L)
         H, d = rk.step_atom(hk, L)
         if H is None:
             return None, "time update at the latch is %r, not X + (one step value)" % (d,)
@@ -64,6 +65,54 @@ class Ctx:
             except rk.AnalysisError as e:
                 self._interp[fn_def] = e
         return self._interp[fn_def]
+
+
+class _HkView:
+    """the hooks' records with some joins resolved (see _resolved); everything else is the original object's"""
+
+    def __init__(self, hk, stages, solout_calls=None, interp_calls=None):
+        self._hk = hk
+        self.stages = stages
+        if solout_calls is not None:
+            self.solout_calls = solout_calls
+        if interp_calls is not None:
+            self.interp_calls = interp_calls
+
+    def __getattr__(self, name):
+        return getattr(self._hk, name)
+
+
+def _resolved(sx, hk, L):
+    """The latch is only reached on paths where some earlier tests are decided (`let last = ..; if last { h = xend - x } ..
+    match last { true => break, false => continue }`): the joins those tests produced have, on the way to the latch, the
+    value of the decided branch. The interpreter applies that to the state; the stage records made before the re-test
+    still carry the join, so the same substitution is applied to them here."""
+    import symx as _symx
+    fs = (L or {}).get(_symx.FACTS) or frozenset()
+    sub = {}
+    for cond, truth in fs:
+        try:
+            ck = sx._cond_key(cond)
+        except Exception:
+            ck = None
+        if ck is None:
+            continue
+        ckey, pol = ck if isinstance(ck, tuple) and len(ck) == 2 and isinstance(ck[1], bool) else (ck, True)
+        for P, pt, pe in sx.cond_phis.get(ckey, []):
+            sub[P] = pt if (truth == pol) else pe
+    if not sub:
+        return hk
+    sv = lambda v: _symx.SymExec._subst_val(v, sub)
+
+    def rec(r):
+        r2 = dict(r)
+        for fld, v in r.items():
+            if fld == "state" and isinstance(v, dict):
+                r2[fld] = {k_: sv(x_) for k_, x_ in v.items()}
+            elif fld != "node":
+                r2[fld] = sv(v)
+        return r2
+    return _HkView(hk, [rec(s) for s in hk.stages], [rec(r) for r in hk.solout_calls], [rec(r) for r in hk.interp_calls])
 
 
 def exact_mode(A, b):
@@ -262,10 +311,11 @@ def fsal_check(rep, ctx, m, flag, init_flag="Continue", solout_present=True, acc
         xl = L.get(hk.xkey)
         yl = L.get(hk.ykey)
         ylv = yl.get(0) if yl is not None and hasattr(yl, "get") else None
+        hk_l = _resolved(sx, hk, L)
         for k in hk.slots:
             v = L.get(k)
             a = v.get(0).single_atom() if hasattr(v, "get") and isinstance(v.get(0), Poly) else None
-            st = next((s for s in hk.stages if s["name"] == a), None) if a else None
+            st = next((s for s in hk_l.stages if s["name"] == a), None) if a else None
             if st is None:
                 bad.append("%s holds %r" % (sx.names.get(k, k), v.get(0) if hasattr(v, "get") else v))
             elif st["T"] != xl or st["arg"] != ylv:
